@@ -7,7 +7,8 @@ OpsAll == {"New", "CloneRoot", "CloneStored", "DropRoot", "Store", "Take", "Drop
            "Downgrade", "Upgrade", "UpgradeStored", "WeakClone", "WeakDrop", "StoreWeak", "TakeWeak"}
 CapsBig == [strong |-> 100000, stored |-> 100000, rec |-> 100000, weak |-> 100000, storedW |-> 100000]
 VPinned == [bust |-> "out", loop |-> "split", consume |-> "ignore"]
-VFixed  == [bust |-> "owned", loop |-> "merged", consume |-> "purge"]
+VFixed  == [bust |-> "owned", loop |-> "ignored", consume |-> "ignore"]
+VFixA   == [bust |-> "owned", loop |-> "split", consume |-> "ignore"]
 MenuAny == {NoScript}
 PropsAll == {"C01", "C02", "C03", "C04", "C05", "C06", "C08", "C14"}
 =============================================================================
